@@ -14,6 +14,7 @@ from sqvm.machine import Program
 from sqvm import abstract
 from sqvm.corpus import all_sources, std_sources, example_sources, test_sources, spec_sources
 from sqvm.gen_tail import programs as gen_tail_programs
+from sqvm.gen_patterns import programs as gen_pattern_programs
 
 
 class MiniProgram:
@@ -137,6 +138,8 @@ def select_sources(tier, seed):
             uniq.append((n, s))
     # generated tail-call shapes: function kind x argument form x target x syntactic position
     gen = [(n, src) for n, src in gen_tail_programs() if src not in seen]
+    # generated pattern-matching shapes: subject type x pattern form x context x result
+    gen += [(n, src) for n, src in gen_pattern_programs() if src not in seen]
     return srcs + uniq + gen
 
 
@@ -335,6 +338,6 @@ def run(prop, rep, want):
     })
     rep.functions = ["every function of every compiled corpus program (%d unique of %d occurrences)" % (len(uniq), occurrences)]
     rep.bounds = {"paths": "all control-flow paths of each function (CFG proven acyclic per function)",
-                  "programs": "corpus: std/*.qv, examples, all test-suite source strings and spec examples, plus a generated family of tail-call shapes (sqvm/gen_tail.py: 6 function kinds x 9 argument forms x 3 targets x 12 positions, those the compiler accepts)",
+                  "programs": "corpus: std/*.qv, examples, all test-suite source strings and spec examples, plus generated families: tail-call shapes (sqvm/gen_tail.py: 6 function kinds x 9 argument forms x 3 targets x 14 positions) and pattern-matching shapes (sqvm/gen_patterns.py: 8 subject types x 27 patterns x 9 contexts x 8 results), those the compiler accepts",
                   "merge histories": "%d groups of 4 programs merged into one real Environment" % variants["merged"]}
     return rep
